@@ -4,11 +4,12 @@ from props._generic import run_property, replay_with_driver
 
 LEVEL = "other"
 KEYS = ["HistoryManager.__call__", "HistoryManager.reset", "HistoryManager.size", "get_context", "resettable.wrapper",
-        "Model.__enter__", "Model.__exit__", "add_cons_vars_to_problem", "remove_cons_vars_from_problem"]
+        "Model.__enter__", "Model.__exit__", "add_cons_vars_to_problem", "remove_cons_vars_from_problem",
+        "remove_cons_vars_from_problem.restore_columns"]
 
 
 def run(rep):
-    run_property(rep, KEYS, hooks=C.ALL_HOOKS, explanation=(
+    run_property(rep, KEYS, hooks=C.ALL_HOOKS, lemmas=C.lemmas, explanation=(
         "Deductive (kernel): HistoryManager.reset is proved to replay the recorded undo actions last-in-first-out and to empty the "
         "history (loop invariant over the recursive spec function run, with a decreasing variant), __call__ to append, get_context "
         "to return the innermost context of the object's model or None for every object shape, and the resettable wrapper to "
@@ -18,11 +19,34 @@ def run(rep):
         "EMPTY while the undo functions run, so that a context-aware undo function cannot re-record itself in an enclosing context "
         "(this obligation has a counter-model `stack length 2` on the original code: the nested-context defect, repaired in /repo); "
         "add_cons_vars_to_problem / remove_cons_vars_from_problem to perform the solver call and to register exactly the inverse "
-        "call in the innermost context (for one non-variable object; the column bookkeeping for removed variables is bounded only). That each context-aware operation registers a "
+        "call in the innermost context, and nothing without a context (`what` ONE object). Removed VARIABLES (`what` one optlang "
+        "Variable of the model's solver, in a context), over a ghost model of the solver - coefficient matrix A[constraint][variable] "
+        "read by Constraint.get_linear_coefficients and written by set_linear_coefficients, constraint names, the Container keyed by "
+        "name, all ASSUMED contracts of optlang: remove_cons_vars_from_problem is proved (loop invariant over solver.constraints) to "
+        "record exactly the column { name of c -> A[c][v] | c a constraint of the solver at entry, A[c][v] != 0 }, to register the "
+        "closure restore_columns capturing [(v, column)] in the innermost context BEFORE the removal exactly when that column is "
+        "non-empty, then to call solver.remove(v), then to register partial(solver.add, v) in the same context, and to write no "
+        "coefficient itself; a Variable of another solver is treated like any other object. The nested function restore_columns is "
+        "verified on its own with its free variables (model, columns) as closure parameters, for 0, 1 and 2 recorded columns of "
+        "different variables (loop invariant over the ghost enumeration of column.items()): for every recorded variable and every "
+        "recorded name for which the CURRENT solver has a constraint, that coefficient is set to the recorded value; no other cell of "
+        "the matrix changes; columns and container are only read; the only other solver call is update(). Glue lemma (two closed "
+        "formulas over these two postconditions): if the variable added again by the first undo has coefficient 0 in every constraint "
+        "(assumed optlang behaviour - the reason for the repair) then after the second undo every constraint that existed at the "
+        "removal and still exists has its entry-time coefficient for v again, and no other variable's coefficient is touched; with an "
+        "empty column nothing needs restoring. Preconditions stated, not proved: constraint names are pairwise different within a "
+        "solver; the recorded variables are different. NOT covered deductively: lists / tuples / sets of several objects in `what` (the "
+        "engine keeps lists of (object, dict) tuples only with a concrete length), more than two recorded columns, and what "
+        "solver.add / solver.remove themselves do to the matrix (trace events here): bounded driver. That each OTHER context-aware "
+        "operation registers a "
         "correct undo, and that undos compose over whole histories and nestings, is NOT proved: bounded driver (full observable "
         "state incl. the raw GLPK problem snapshotted at __enter__ and compared after __exit__ over operation sequences, nestings, "
         "exits by exception and naturally raising operations)."),
-        trusted=["non-reentrancy: an undo entry does not touch the history being reset (stated in the reset contract)"])
+        trusted=["non-reentrancy: an undo entry does not touch the history being reset (stated in the reset contract)",
+                 "optlang (assumed contracts, ghost matrix A): Constraint.get_linear_coefficients([v]) reads A[c][v]; "
+                 "Constraint.set_linear_coefficients({v: x}) writes exactly A[c][v] := x; Container: `name in`, `[name]` by pairwise "
+                 "different constraint names; Model.update() writes no coefficient; `variable.problem is solver` decides membership; "
+                 "glue lemma only: a variable that is added again has coefficient 0 in every constraint"])
 
 
 def replay(payload):
